@@ -88,10 +88,7 @@ func VerifC09_AnnotationSites() {
 	}
 	cache := &zzSiteCache{dyn: dyn}
 	hc := haproxy.CreateInstance(logger, haproxy.InstanceOptions{}).Config()
-	c := &updater{
-		haproxy: hc, logger: logger, cache: cache, tracker: zzSiteTracker{},
-		options: &convtypes.ConverterOptions{DynamicConfig: dyn, Logger: logger},
-	}
+	c := NewUpdater(hc, &convtypes.ConverterOptions{DynamicConfig: dyn, Logger: logger, Cache: cache, Tracker: zzSiteTracker{}}).(*updater)
 	src := &Source{Namespace: "a", Name: "ing1", Type: convtypes.ResourceIngress}
 	link := hatypes.CreateHostPathLink("d.local", "/", hatypes.MatchBegin)
 	ref := zzSiteRefs[nd.Choice("ref", len(zzSiteRefs))]
